@@ -18,6 +18,7 @@ type Ctx struct {
 	tier string
 	api  []APIMethod
 	ronly int64
+	nilA  *nilAnalysis
 }
 
 func newCtx(p *Program, prop, tier string) *Ctx {
